@@ -178,6 +178,21 @@ def Shape.toForest [DecidableEq β] (flatten : Bool) (boxOf : ι → β) (union 
       newJoined flatten boxOf union
         (Forest.append (Shape.toForest flatten boxOf union l) (Shape.toForest flatten boxOf union r))
 
+/-- `BVHToCollider` / `BVHToObject` on a `BVH[B]` whose branches have ANY number of children
+("a leaf, or a branch with two or more children"; hand-built / externally grouped hierarchies).
+The BVH is an ordered forest without bounds (`Forest ι Unit`, first-child / next-sibling: `node ()
+children rest` is a branch followed by its siblings); the function converts a list of sibling BVH
+nodes into the list of their colliders / objects: every branch becomes
+`NewJoinedCollider(converted children)` resp. `FilteredObject{JoinedObject{converted children},
+BoundsRect}` — the loop `for _, x := range b.Branch { other = append(other, convert(x)) }`. -/
+def bvhJoin [DecidableEq β] (flatten : Bool) (boxOf : ι → β) (union : β → β → β) :
+    Forest ι Unit → Forest ι β
+  | .nil => .nil
+  | .leaf i r => .leaf i (bvhJoin flatten boxOf union r)
+  | .node _ c r =>
+      Forest.append (newJoined flatten boxOf union (bvhJoin flatten boxOf union c))
+        (bvhJoin flatten boxOf union r)
+
 /-- `GroupedTrianglesToCollider(tris)`; the empty slice gives `nullCollider` (empty forest). -/
 def grouped [DecidableEq β] (flatten : Bool) (boxOf : ι → β) (union : β → β → β) (l : List ι) :
     Forest ι β :=
@@ -433,6 +448,14 @@ def KD.knn (coord : P → Nat → α) (sq : P → P → α) (k : Nat) (p : P) :
 /-- `KNN`: `k = 0` returns nothing without touching the tree. -/
 def KD.KNN (coord : P → Nat → α) (sq : P → P → α) (k : Nat) (p : P) (t : KD P) : List (α × P) :=
   if k = 0 then [] else KD.knn coord sq k p t []
+
+/-- A table of k-nearest answers: the queries `(k, p)` are issued one after the other against the
+same tree and ALL answers are read afterwards (`nbrs[i] = tree.KNN(k_i, p_i)`, a k-NN graph).
+A returned slice is a value: an answer, once returned, is what the caller holds — later queries
+have no access to it. -/
+def KD.knnTable (coord : P → Nat → α) (sq : P → P → α) (t : KD P) (qs : List (Nat × P)) :
+    List (List (α × P)) :=
+  qs.map fun q => KD.KNN coord sq q.1 q.2 t
 
 /-- Linear scan with the same bounded insertion. -/
 def scanKNN (sq : P → P → α) (k : Nat) (p : P) (l : List P) (s : List (α × P)) : List (α × P) :=
